@@ -108,8 +108,10 @@ func body(c config, ctx *hk.Ctx) {
 	failNext := false
 	ids := []int{c.ExtID, c.ExtID2, 0}
 	ws := make([]interceptor.RTPWriter, 3)
+	infos := make([]*interceptor.StreamInfo, 3)
 	for s := 0; s < 3; s++ {
 		info := &interceptor.StreamInfo{SSRC: uint32(0x5000 + s)}
+		infos[s] = info
 		if ids[s] != 0 {
 			info.RTPHeaderExtensions = []interceptor.RTPHeaderExtension{{URI: "urn:other", ID: 15}, {URI: uri, ID: ids[s]}}
 		}
@@ -198,6 +200,22 @@ func body(c config, ctx *hk.Ctx) {
 	if ctx.Failed() {
 		return
 	}
+	// the non-negotiated stream and one negotiated stream are unbound; the remaining stream keeps writing and
+	// its numbers continue the run
+	tailFrom := len(out)
+	if !c.FailW0 {
+		icpt.UnbindLocalStream(infos[2])
+		icpt.UnbindLocalStream(infos[1])
+		for k := 0; k < 2; k++ {
+			h := rtp.Header{Version: 2, PayloadType: 96, SequenceNumber: uint16(9000 + k), SSRC: 0x5000}
+			if _, err := ws[0].Write(&h, []byte{9}, nil); err != nil {
+				ctx.Fail("C15:write-error", "write after the other streams were unbound: %v", err)
+				return
+			}
+		}
+	}
+	tail := append([]got(nil), out[tailFrom:]...)
+	out = out[:tailFrom]
 	// oracle
 	total := 0
 	for _, l := range sentLog {
@@ -265,6 +283,15 @@ func body(c config, ctx *hk.Ctx) {
 	for i := 0; i < len(nums); i++ {
 		if !seen[(start+i)%65536] {
 			ctx.Fail("C15:gap", "numbers %v are not the %d consecutive values starting at %d", nums, len(nums), start)
+			return
+		}
+	}
+	// the two packets written after the other streams were unbound continue the run
+	for k, g := range tail {
+		e := g.hdr.GetExtension(uint8(ids[0]))
+		want := (start + len(nums) + k) % 65536
+		if len(e) != 2 || int(e[0])<<8|int(e[1]) != want {
+			ctx.Fail("C15:run-restarted-after-unbind", "after the other streams were unbound the remaining stream's packet %d carries %x, the run continues with %d", k, e, want)
 			return
 		}
 	}
